@@ -1,10 +1,12 @@
 use crate::common::*;
 
+pub mod c07;
 pub mod c19;
 
 pub fn dispatch(id: &str, tier: Tier, replay: Option<&str>) -> i32 {
     let _ = replay;
     let rep = match id {
+        "C07" => c07::run(tier),
         "C19" => c19::run(tier),
         _ => machinery_error(&format!("no check for property {id}")),
     };
